@@ -16,6 +16,24 @@ PROPS = {
                    "the plasma stream once the mock-node harness is attached",
         "assumptions": ["SHA3-256 is an uninterpreted parameter of checkPoWNonce"],
     },
+    "C19": {
+        "module": "ZenonVerif.Props.C19",
+        "streams": [S("wallet", 600, 30000, timeout=7200)],
+        "rule": "wallet stream: path strings (fixed malformed set, boundary segments 2^31-1/2^31/2^32-1/2^32/leading zeros/"
+                "20+ digits, random valid paths, a third of them mutated by one byte edit), DeriveForPath / DeriveWithIndex "
+                "on those with seeds of 0..128 bytes, PubKeyToAddress on 0..64-byte strings, keyStoreFromEntropy on 0..64-byte "
+                "entropies, key files for entropies of 16/20/24/28/32 bytes x 7 passwords (empty, unicode, 4 kB, binary) with "
+                "write -> read -> decrypt, wrong passwords, single-bit flips of ciphertext/nonce/salt (one complete sweep of all "
+                "bits of one file + 6 random bits per further file) and header edits; one evaluation = one call of the real "
+                "wallet code replayed through the Lean model with the primitives supplied as oracle values; distinct = "
+                "distinct (op,result) lines",
+        "partial": "'fails with any other password / after any change to ciphertext, nonce or salt' is AES-GCM authenticity "
+                   "and Argon2id behaviour: an assumption, exercised by the stream (wrong passwords, bit flips), not a theorem; "
+                   "JSON text encoding of the key file (hexutil / bech32) is exercised by the stream only; Timestamp is wall "
+                   "clock and excluded",
+        "assumptions": ["HMAC-SHA512, SHA3-256, Ed25519, Argon2id, AES-256-GCM, BIP-39 are uninterpreted parameters "
+                        "(structure Crypto) with laws open_seal, verify_sign, hmac_len, sha3_len as explicit fields"],
+    },
     "C18": {
         "module": "ZenonVerif.Props.C18",
         "streams": [S("paging", 30000, 2000000)],
